@@ -92,6 +92,10 @@ def regenerate():
     rc, out = sh([PY, os.path.join(VERIF, "harness", "extract_layouts.py"), os.path.join(COQ, "Gen", "Layouts.v")], 60, env=IMPL_ENV)
     if rc != 0:
         raise BuildError("extract_layouts failed:\n" + out)
+    # the mode dispatch of main(), extracted from the source text
+    rc, out = sh([PY, os.path.join(VERIF, "harness", "extract_dispatch.py"), os.path.join(COQ, "Gen", "Dispatch.v")], 60, env=IMPL_ENV)
+    if rc != 0:
+        raise BuildError("extract_dispatch failed:\n" + out)
     # the selection code, translated from its source text (fail-closed Python-ast translator)
     rc, out = sh([PY, os.path.join(VERIF, "harness", "translate_select.py"), os.path.join(COQ, "Gen", "SelectGen.v")], 60, env=IMPL_ENV)
     if rc != 0:
